@@ -248,10 +248,13 @@ def vcf_groups(spec, ploidy, indivs):
         chosen = list(indivs)
     if chosen is not None:
         groups, nonsample = [], False
+        by_ind = {}
+        for u in range(n):
+            by_ind.setdefault(node_ind[u], []).append(u)
         for i in chosen:
             if i < 0 or i >= nind:
                 return "error", None
-            nodes = [u for u in range(n) if node_ind[u] == i]
+            nodes = by_ind.get(i, [])
             if not nodes:
                 return "error", None
             kinds = {model.is_sample(spec, u) for u in nodes}
@@ -268,18 +271,34 @@ def vcf_groups(spec, ploidy, indivs):
     return "ok", [smp[i:i + p] for i in range(0, len(smp), p)]
 
 
-def site_states(spec, j):
+def site_states(spec, j, by_site=None):
     out = [spec["sites"][j][1]]
-    for _, m in model.site_mutations(spec, j):
+    for _, m in (model.site_mutations(spec, j) if by_site is None else by_site[j]):
         if m[2] not in out:
             out.append(m[2])
     return out
 
 
-def site_oracle(spec, j, nodes, iam):
+def site_oracle(spec, j, nodes, iam, by_site=None):
     par = model.parent_at(spec, F(spec["sites"][j][0]))
     ch = model.children_of(par)
-    return [None if iam and model.is_missing(spec, j, u, par, ch) else model.allele_at(spec, j, u, par)
+    sm = model.site_mutations(spec, j) if by_site is None else by_site[j]
+    if len(nodes) > 64:
+        # same rule as model.allele_at / is_missing, with the per-site mutation map built once
+        on = {}
+        for _, m in sm:
+            on[m[1]] = m[2]
+        out = []
+        for u in nodes:
+            if iam and model.is_sample(spec, u) and par[u] < 0 and not ch[u] and u not in on:
+                out.append(None)
+                continue
+            v = u
+            while v >= 0 and v not in on:
+                v = par[v]
+            out.append(on[v] if v >= 0 else spec["sites"][j][1])
+        return out
+    return [None if iam and model.is_missing(spec, j, u, par, ch, sm) else model.allele_at(spec, j, u, par, sm)
             for u in nodes]
 
 
@@ -334,6 +353,7 @@ def run_vcf(case, ctx):
     a = dict(case["args"])
     ts = gen.build_tables(spec, tskit).tree_sequence()
     ns = len(spec["sites"])
+    by_site = model.mutations_by_site(spec)
     L = F(spec["L"])
     ctx.label("layout_" + a["layout"])
     ctx.label("alpha_" + a["alpha"])
@@ -371,9 +391,9 @@ def run_vcf(case, ctx):
     ctx.label("position_zero_masked", zero_masked)
     if zero_unmasked and not allow0 and "site_mask length" not in errs:
         errs.add("position zero")
-    many_unmasked = any(len(site_states(spec, j)) > 9 and not masked[j] for j in range(ns))
-    many_masked = any(len(site_states(spec, j)) > 9 and masked[j] for j in range(ns))
-    ctx.label("exactly9_alleles_unmasked", any(len(site_states(spec, j)) == 9 and not masked[j] for j in range(ns)))
+    many_unmasked = any(len(site_states(spec, j, by_site)) > 9 and not masked[j] for j in range(ns))
+    many_masked = any(len(site_states(spec, j, by_site)) > 9 and masked[j] for j in range(ns))
+    ctx.label("exactly9_alleles_unmasked", any(len(site_states(spec, j, by_site)) == 9 and not masked[j] for j in range(ns)))
     ctx.label("gt9_alleles_unmasked", many_unmasked)
     ctx.label("gt9_alleles_masked", many_masked)
     if many_unmasked:
@@ -467,14 +487,14 @@ def run_vcf(case, ctx):
         ctx.check(len(r) == 9 + nvcf, "vcf.line", f"site {j}: {len(r)} columns expected {9 + nvcf}")
         ctx.check(r[0] == contig, "vcf.CHROM", f"{r[0]!r} expected {contig!r}")
         ctx.check(r[1] == str(tpos[j]), "vcf.POS", f"site {j} at {pos[j]}: POS {r[1]} expected {tpos[j]} ({tkind}); {W}")
-        sst = site_states(spec, j)
+        sst = site_states(spec, j, by_site)
         ctx.check(r[3] == sst[0], "vcf.REF", f"site {j}: REF {r[3]!r} expected {sst[0]!r}")
         alts = [] if r[4] == "." and len(sst) == 1 else r[4].split(",")
         ctx.check(sorted(alts) == sorted(sst[1:]) and len(set(alts)) == len(alts), "vcf.ALT",
                   f"site {j}: ALT {r[4]!r} expected the states {sst[1:]}")
         ctx.check(r[5:9] == [".", "PASS", ".", "GT"], "vcf.fixed_columns", f"{r[5:9]}")
         alleles = [r[3]] + alts
-        exp = site_oracle(spec, j, flat, iam)
+        exp = site_oracle(spec, j, flat, iam, by_site)
         if smask is not None:
             bits = sample_mask_bits(smask, j)
             exp = [None if bits[i] else s for i, s in enumerate(exp)]
@@ -577,6 +597,81 @@ def enum_masks(tier, seed):
                             apz=apz))
 
 
+# ------------------------------------------------------------------ many samples / many sites
+def big_vcf_spec(K, S, with_inds):
+    """Balanced-ish two-level tree over K samples (groups of 7 under K/7 internal nodes under one root; the last
+    sample is isolated on the right half), S sites with 1-3 mutations each, diploid individuals if asked."""
+    G = max(1, K // 7)
+    nodes = [[1, 0.0, -1, (u // 2 if with_inds else -1), ""] for u in range(K)]
+    nodes += [[0, 1.0, -1, -1, ""] for _ in range(G)] + [[0, 2.0, -1, -1, ""]]
+    root = K + G
+    L = float(2 * S)
+    edges = []
+    for g in range(G):
+        edges.append([0.0, L, root, K + g, ""])
+    low = []
+    for u in range(K):
+        right = L / 2 if u == K - 1 else L
+        low.append([0.0, right, K + (u % G), u, ""])
+    low.sort(key=lambda e: (e[2], e[3]))
+    edges = low + edges
+    sites, muts = [], []
+    letters = "ACGT"
+    for j in range(S):
+        x = float(2 * j) + (0.5 if j % 3 == 0 else 0.0)
+        sites.append([x, letters[j % 4], ""])
+        on = {}
+
+        def put(node, state):
+            if node in on:
+                par = on[node]
+            else:
+                grp = K + (node % G) if node < K else None
+                attached = node < K and not (node == K - 1 and x >= L / 2)
+                par = on.get(grp, -1) if attached else -1
+            muts.append([j, node, state, par, None, ""])
+            on[node] = len(muts) - 1
+
+        put(K + (j * 13) % G, letters[(j + 1) % 4])
+        if j % 2:
+            put((j * 31) % K, letters[(j + 2) % 4])
+        if j % 5 == 0:
+            put(K - 1, letters[(j + 3) % 4])
+    inds = [[0, [], [], ""] for _ in range((K + 1) // 2)] if with_inds else []
+    return dict(L=L, nodes=nodes, edges=edges, sites=sites, mutations=muts, individuals=inds, populations=[],
+                migrations=[])
+
+
+def enum_big(tier, seed):
+    sizes = [(4097, 16), (4200, 40), (66, 4200), (66000, 3)]
+    if tier != "quick":
+        sizes += [(131074, 3), (1000, 20000), (16385, 8), (8200, 30), (300, 9000), (32770, 3)]
+    for K, S in sizes:
+        for with_inds, ploidy in ((False, None), (False, 2), (True, None)):
+            if K % 2 and ploidy == 2:
+                continue
+            for tr in (None, "legacy"):
+                for sm in (None, "array"):
+                    yield dict(K=K, S=S, with_inds=with_inds, ploidy=ploidy, transform=tr, mask=sm,
+                               iam=(None if sm is None else False))
+
+
+def run_big(case, ctx):
+    K, S = case["K"], case["S"]
+    spec = big_vcf_spec(K, S, case["with_inds"])
+    site_mask = None
+    sample_mask = None
+    if case["mask"]:
+        site_mask = dict(form="bool_array", bits=[j % 11 == 3 for j in range(S)])
+        if not case["with_inds"]:
+            sample_mask = dict(form="bool_array", bits=[u % 9 == 4 for u in range(K)])
+    a = dict(layout="clean" if case["with_inds"] else "none", alpha="acgt", ploidy=case["ploidy"], individuals=None,
+             names=None, contig_id=None, transform=case["transform"], site_mask=site_mask, sample_mask=sample_mask,
+             iam=case["iam"], apz=True)
+    run_vcf(dict(spec=spec, args=a), ctx)
+    ctx.nt(True)
+
+
 SUBCHECKS = [
     SubCheck("C16.mask_forms", run_vcf, enumerate=enum_masks, quick=1, thorough=1, classify=classify,
              rule="fixed 4-site tree sequence (site at position 0, site with 11 alleles, missing calls) x all 16 "
@@ -591,6 +686,9 @@ SUBCHECKS = [
                      "gt9_alleles_unmasked": 0.01, "gt9_alleles_masked": 0.005, "individuals_used": 0.1,
                      "individuals_arg": 0.03, "transform_legacy": 0.1, "mask_hides_error": 0.01,
                      "data_lines": 0.2}),
+    SubCheck("C16.large", run_big, enumerate=enum_big, quick=1, thorough=1, shards=16, classify=classify,
+             rule="4097..66000 samples x a few sites and 66..300 samples x 4200..9000 sites (thorough: up to 131074 samples / 20000 sites) x "
+             "ploidy / individuals x transform x masks"),
 ]
 
 _PROBE_SPEC = dict(L=10.0, nodes=[[1, 0.0, -1, -1, ""], [1, 0.0, -1, -1, ""], [0, 1.0, -1, -1, ""]],
